@@ -80,6 +80,9 @@ def live_case(spec, log):
                     a['force'] = op['force']
                 if 'Remote' in spec['cls'] and t is not None:
                     a['remote_timeout'] = t
+                if 'Remote' in spec['cls'] and op.get('remote_timeout') == 'none':
+                    # documented: None = no separate bound for the remote side, the overall timeout applies
+                    a['remote_timeout'] = None
                 fn = lambda: w.terminate(**a)
             elif name == 'wait':
                 fn = lambda: w.wait(**a)
@@ -137,6 +140,11 @@ def live_matrix(tier):
             for t in (0, 0.05, 0.2):
                 for force in (True, False):
                     jobs.append(dict(cls=cls, behaviour='slowres', t=t, force=force, ops=[dict(op='terminate', timeout=t, force=force), dict(op='wait', timeout=2), dict(op='is_alive'), dict(op='terminate', timeout=0, force=True)]))
+            if 'Remote' in cls:
+                # remote_timeout=None: the remote side is bounded by the overall timeout alone
+                for beh in ('swallow', 'sleep', 'coop'):
+                    jobs.append(dict(cls=cls, behaviour=beh, t=0.5, force='remote-timeout-none', ops=[dict(op='terminate', timeout=0.5, force=True, remote_timeout='none'), dict(op='wait', timeout=0), dict(op='is_alive')]))
+                    jobs.append(dict(cls=cls, behaviour=beh, t=0.3, force='remote-timeout-none', ops=[dict(op='terminate', timeout=0.3, force=False, remote_timeout='none'), dict(op='terminate', timeout=0.5, force=True, remote_timeout='none')]))
             # a stopped child that is resumed while a later call is in progress (requests of earlier, timed-out calls are still unread)
             tail = [dict(op='wait', timeout=0), dict(op='terminate', timeout=0, force=True)]
             for ca in (0.05, 0.15, 0.4):
